@@ -26,7 +26,7 @@ goroot=$(cd "$REPO" && go env GOROOT) || { echo "HARNESS-ERROR go env failed"; e
 wide=""
 case "$id" in C01|C02|C03|C06|C07|C08|C09|C10|C16|C18) wide="-wide";; esac
 built=""
-if [ -n "$wide" ]; then
+if [ -n "$wide" ] && [ -z "${VERIF_NO_WIDE:-}" ]; then
   mkdir -p "$run/w"
   if ov=$("$VERIF/bin/overlaygen" -wide -repo "$REPO" -verif "$VERIF" -out "$run/w" -goroot "$goroot") &&
      (cd "$REPO" && go test -c -vet=off -tags verif -overlay "$ov" -o "$run/verif.test" . ) > "$run/build.log" 2>&1; then
